@@ -75,6 +75,26 @@ def run(R):
             nre += 1
             R.count((label, base.get("mac"), base.get("alg"), hc.signature(b)))
     use_all(gen_reuse(R, "poly", 16, [0, 1, 15, 16, 17, 33]), {"cls": "mac", "mac": "poly1305", "key": key("polyre", 32)}, "reuse-poly", 1)
+    # a reused Poly1305 object fed a message crafted for each rare carry / select class of the limb code (polycraft; classes of Poly1305Donna.tla):
+    # after abandoned input and reset, in two pieces, result read twice, then once more after another reset
+    from props import polycraft
+    for cls in list(polycraft.CLASSES) + list(polycraft.GENERIC_CLASSES):
+        for j in range(6 if thorough else 1):
+            if cls in polycraft.GENERIC_CLASSES:
+                k = key("polycraft/%s/%d" % (cls, j), 32)
+                blocks = polycraft.craft_generic(cls, k, [], [], R.rng)
+                r = (k, blocks) if blocks else None
+            else:
+                r = polycraft.craft(cls, R.rng)
+            if r is None:
+                continue
+            k, m = r
+            cut = 9 if len(m) > 9 else len(m) // 2
+            hs.append({"id": R.next_id(), "cls": "mac", "mac": "poly1305", "key": k,
+                       "ev": [{"op": "new"}, {"op": "input", "x": 1, "data": vlib.prng_bytes(R.seed, "c09/junk/" + cls, 7)}, {"op": "reset", "x": 1},
+                              {"op": "input", "x": 1, "data": m[:cut]}, {"op": "input", "x": 1, "data": m[cut:]}, {"op": "result", "x": 1}, {"op": "raw_result", "x": 1},
+                              {"op": "reset", "x": 1}, {"op": "input", "x": 1, "data": m}, {"op": "raw_result", "x": 1}]})
+            R.count(("poly-crafted-reuse", cls, j))
     for alg, (b, mo, mk) in hc.BLAKE.items():
         behs = gen_reuse(R, "b2mac", b, [0, 1, b - 1, b, b + 1])
         use_all(behs, {"cls": "mac", "mac": alg, "outlen": mo, "key": key(alg + "re", mk)}, "reuse-b2mac", 1 if thorough else 0.35)
@@ -83,6 +103,13 @@ def run(R):
     for alg, b in (("sha256", 64), ("sha512", 128), ("sha3_256", 136)):
         behs = gen_reuse(R, "hmac", b, [0, 1, b - 1, b, b + 1])
         use_all(behs, {"cls": "mac", "mac": "hmac", "alg": alg, "key": key("hmacre" + alg, 20)}, "reuse-hmac", 0.5 if thorough else 0.05)
+    # the legacy digest objects of every fixed hash: the same matrix (lengths around the block / rate, incl. an exact multiple abandoned by reset)
+    dcache = {}
+    for alg in hc.FIXED:
+        b = hc.block_of(alg)
+        if b not in dcache:
+            dcache[b] = gen_reuse(R, "digest", b, [0, 1, b - 1, b, b + 1])
+        use_all(dcache[b], {"cls": "digest", "alg": alg}, "reuse-digest", 1 if thorough else (0.06 if alg in hc.MD else 0.03))
     R.extra["reuse_matrix_histories"] = nre
     cache = {}
     for alg in hc.FIXED:
